@@ -147,6 +147,30 @@ class Gen:
             self.steps.append("C ifchange k0 %s" % t)
         self.count("tolerant_episode")
 
+    def orphan_episode(self):
+        """a target whose rebuild fails (its old file stays), then loses its rule while the file is kept:
+        it becomes a source; consumers are rebuilt once and then stay quiet (seeded change c02-d)"""
+        r = self.r
+        cands = [t for t in self.targets if any(d in self.targets for d in self.scripts.get(t + ".do", {}).get("deps", []))]
+        if not cands:
+            return
+        t = r.choice(cands)
+        d = r.choice([x for x in self.scripts[t + ".do"]["deps"] if x in self.targets])
+        if d + ".do" not in self.scripts:
+            return
+        dsc = dict(self.scripts[d + ".do"])
+        dsc.update({"exit": 0, "out": r.choice(["S", "3"]), "always": 0})
+        self.emit_do(d + ".do", dsc)
+        self.steps.append("C ifchange k0 %s" % t)
+        dsc = dict(dsc, exit=r.choice([1, 3]), payload=self.newtok())
+        self.emit_do(d + ".do", dsc)
+        self.steps.append("C ifchange k0 %s" % t)          # fails; d's old file stays
+        self.steps.append("R %s.do" % d)
+        del self.scripts[d + ".do"]
+        for _ in range(r.randint(2, 3)):
+            self.steps.append("C ifchange k0 %s" % t)      # d is a source now: one rebuild at most, then nothing
+        self.count("orphan_episode")
+
     def oob_cycle_episode(self):
         """T -> (m ->) d, d checksummed over a source; after a good build the source changes and d starts
         to ask for T (or m): the cycle closes while d is rebuilt out of band (finding F21)"""
@@ -176,6 +200,8 @@ class Gen:
             self.tolerant_episode()
         if self.profile == "cycles" and r.random() < 0.5:
             self.oob_cycle_episode()
+        if self.profile in ("failures", "general", "override") and r.random() < (0.35 if self.profile == "failures" else 0.12):
+            self.orphan_episode()
         for _ in range(nsteps):
             x = r.random()
             if x < 0.38:
